@@ -146,6 +146,9 @@ class Run:
         payload = dict(payload)
         payload['property'] = self.prop
         payload['no_failing_input_found'] = bool(no_input)
+        if len(self.violations) >= 12:      # enough replays; keep counting
+            self.coverage['violations_not_written'] = self.coverage.get('violations_not_written', 0) + 1
+            return
         path = write_replay(self.prop, payload)
         self.violations.append((path, no_input))
 
